@@ -406,7 +406,7 @@ theorem geom_div (p d i : Nat) (hp : 0 < p) (hd : d ∣ p - 1) :
   refine ⟨hdi, ?_⟩
   obtain ⟨a, ha⟩ := hd
   obtain ⟨b, hb⟩ := hdi
-  have hpi : 0 < p ^ i := Nat.pos_pow hp
+  have hpi : 0 < p ^ i := Nat.pow_pos hp
   have e : p ^ (i + 1) - 1 = d * (a + p * b) := by
     have : p ^ (i + 1) = p * (p ^ i - 1) + (p - 1) + 1 := by
       rw [pow_succ]
@@ -441,7 +441,7 @@ theorem frobRec_prime (p : Nat) [Fact p.Prime] (c1 : Nat) : ∀ (xs : List El) (
       rw [ZMod.natCast_mod, Nat.cast_mul, ZMod.natCast_mod, Nat.cast_pow, ZMod.pow_card]
     cases j with
     | zero =>
-      refine ⟨_, by simpa using hx, ?_⟩
+      refine ⟨c1 * (prev ^ p % p) % p, by rw [hx]; rfl, ?_⟩
       rw [hxv]; ring
     | succ j =>
       rw [hx] at hrest
@@ -488,7 +488,7 @@ theorem frobenius_c1_prime (c : ExtCfg) (p b : Nat) [Fact p.Prime] (hp : c.p = p
     intro i hi
     match i, hi with
     | 0, _ => exact ⟨1, by simp [h0], by simp⟩
-    | 1, _ => exact ⟨_, by simp [h1], by rw [hc1]; simp [he]⟩
+    | 1, _ => exact ⟨b ^ e % p, by simp [h1], by rw [hc1]; simp [he]⟩
     | (j + 2), hi =>
       obtain ⟨v, hv1, hv2⟩ := key j (by simpa using hi)
       refine ⟨v, by simpa using hv1, ?_⟩
@@ -514,5 +514,53 @@ theorem mnt_final_exponent (c : MntCfg) (h : checkMntFinalExponent c = true) :
       = (if c.k = 4 then (c.p : Int) ^ 2 + 1 else (c.p : Int) ^ 2 - (c.p : Int) + 1) := by
   unfold checkMntFinalExponent at h
   simpa using h
+
+/-! ## curves over a prime field: the list arithmetic is arithmetic of `ZMod p` -/
+
+theorem list_singleton_beq {a b : Nat} (h : ([a] == [b]) = true) : a = b := by simpa using h
+
+/-- `checkSwGeneratorOnCurve` over a prime field: `y² = x³ + a x + b` in `F_p` -/
+theorem sw_on_curve_prime (c : SwCfg) (p a b x y : Nat) (ht : c.tower = .prime p)
+    (ha : c.a = [a]) (hb : c.b = [b]) (hx : c.gx = [x]) (hy : c.gy = [y])
+    (h : checkSwGeneratorOnCurve c = true) :
+    ((y : Nat) : ZMod p) ^ 2 = ((x : Nat) : ZMod p) ^ 3 + ((a : Nat) : ZMod p) * ((x : Nat) : ZMod p)
+      + ((b : Nat) : ZMod p) := by
+  unfold checkSwGeneratorOnCurve Sw.onCurve at h
+  rw [ht, ha, hb, hx, hy, and_true_iff] at h
+  have h2 := h.2
+  simp only [Tw.sq, Tw.mul, Tw.add, Tw.char, vadd, List.headD_cons] at h2
+  have h3 := list_singleton_beq h2
+  have h4 := congrArg (fun n : Nat => (n : ZMod p)) h3
+  simp only [ZMod.natCast_mod, Nat.cast_add, Nat.cast_mul] at h4
+  rw [pow_two, h4]; ring
+
+/-- `checkTeGeneratorOnCurve` over a prime field: `a x² + y² = 1 + d x² y²` in `F_p` -/
+theorem te_on_curve_prime (c : TeCfg) (p a d x y : Nat) (ht : c.tower = .prime p)
+    (ha : c.a = [a]) (hd : c.d = [d]) (hx : c.gx = [x]) (hy : c.gy = [y])
+    (h : checkTeGeneratorOnCurve c = true) :
+    ((a : Nat) : ZMod p) * ((x : Nat) : ZMod p) ^ 2 + ((y : Nat) : ZMod p) ^ 2
+      = 1 + ((d : Nat) : ZMod p) * ((x : Nat) : ZMod p) ^ 2 * ((y : Nat) : ZMod p) ^ 2 := by
+  unfold checkTeGeneratorOnCurve Te.onCurve at h
+  rw [ht, ha, hd, hx, hy] at h
+  simp only [Tw.sq, Tw.mul, Tw.add, Tw.one, Tw.deg, vone, Tw.char, vadd, List.headD_cons,
+    List.replicate] at h
+  have h3 := list_singleton_beq h
+  have h4 := congrArg (fun n : Nat => (n : ZMod p)) h3
+  simp only [ZMod.natCast_mod, Nat.cast_add, Nat.cast_mul, Nat.cast_one] at h4
+  rw [pow_two, pow_two]
+  linear_combination h4
+
+/-- a non-square over a prime field (`SWUConfig::ZETA`, `Elligator2Config::Z`, …) -/
+theorem nonSquare_prime (p z : Nat) [Fact p.Prime] (hlt : z < p)
+    (h : Tw.nonSquare (.prime p) [z] = true) : ¬ IsSquare ((z : Nat) : ZMod p) := by
+  have hp1 : 1 < p := (Fact.out : p.Prime).one_lt
+  let c : ExtCfg := { kind := .fp2, p := p, baseTower := .prime p, nonresidue := [z], frobC1 := [],
+                      frobC2 := [], nrMulBasis := [] }
+  have hc : checkNonresidue c = true := by
+    show Tw.notKthPower (.prime p) 2 [z] = true
+    exact h
+  obtain ⟨_, hno⟩ := nonresidue_prime c p z rfl rfl hlt hc
+  rintro ⟨y, hy⟩
+  exact hno ⟨y, by show y ^ 2 = _; rw [hy, pow_two]⟩
 
 end Ark.CfgMeaning
